@@ -91,56 +91,6 @@ func Resolve(p *core.Prog) *Roles {
 			}
 		}
 	}
-	parent := map[string]string{}
-	var find func(s string) string
-	find = func(s string) string {
-		if parent[s] == "" || parent[s] == s {
-			parent[s] = s
-			return s
-		}
-		parent[s] = find(parent[s])
-		return parent[s]
-	}
-	for _, n := range structs {
-		find(n.Obj().Name())
-	}
-	var refs func(t types.Type, from string, depth int)
-	refs = func(t types.Type, from string, depth int) {
-		if depth > 8 {
-			return
-		}
-		switch x := t.(type) {
-		case *types.Pointer:
-			refs(x.Elem(), from, depth+1)
-		case *types.Slice:
-			refs(x.Elem(), from, depth+1)
-		case *types.Array:
-			refs(x.Elem(), from, depth+1)
-		case *types.Map:
-			refs(x.Key(), from, depth+1)
-			refs(x.Elem(), from, depth+1)
-		case *types.Named:
-			if x.Obj().Pkg() != nil && x.Obj().Pkg().Path() == r.StorePath {
-				if _, ok := x.Underlying().(*types.Struct); ok {
-					a, b := find(from), find(x.Obj().Name())
-					if a != b {
-						parent[a] = b
-					}
-				}
-			}
-			if ta := x.TypeArgs(); ta != nil {
-				for i := 0; i < ta.Len(); i++ {
-					refs(ta.At(i), from, depth+1)
-				}
-			}
-		}
-	}
-	for _, n := range structs {
-		st := n.Underlying().(*types.Struct)
-		for i := 0; i < st.NumFields(); i++ {
-			refs(st.Field(i).Type(), n.Obj().Name(), 0)
-		}
-	}
 	impl := func(n *types.Named, it *types.Named) bool {
 		if it == nil {
 			return false
@@ -151,28 +101,118 @@ func Resolve(p *core.Prog) *Roles {
 		}
 		return types.Implements(types.NewPointer(n), iface) || types.Implements(n, iface)
 	}
-	fams := map[string]*Family{}
-	for _, n := range structs {
-		root := find(n.Obj().Name())
-		f := fams[root]
-		if f == nil {
-			f = &Family{Types: map[string]bool{}}
-			fams[root] = f
+	// components computes the families with the given struct types left out of the linking (they join no family)
+	components := func(exclude map[string]bool) []*Family {
+		parent := map[string]string{}
+		var find func(s string) string
+		find = func(s string) string {
+			if parent[s] == "" || parent[s] == s {
+				parent[s] = s
+				return s
+			}
+			parent[s] = find(parent[s])
+			return parent[s]
 		}
-		f.Types[n.Obj().Name()] = true
-		switch {
-		case impl(n, r.IStore):
-			f.Store = n
-			f.Name = n.Obj().Name()
-		case impl(n, r.IRepo):
-			f.Repo = n
-		case impl(n, r.IBlobCreator):
-			f.Upload = n
+		for _, n := range structs {
+			find(n.Obj().Name())
+		}
+		var refs func(t types.Type, from string, depth int)
+		refs = func(t types.Type, from string, depth int) {
+			if depth > 8 {
+				return
+			}
+			switch x := t.(type) {
+			case *types.Pointer:
+				refs(x.Elem(), from, depth+1)
+			case *types.Slice:
+				refs(x.Elem(), from, depth+1)
+			case *types.Array:
+				refs(x.Elem(), from, depth+1)
+			case *types.Map:
+				refs(x.Key(), from, depth+1)
+				refs(x.Elem(), from, depth+1)
+			case *types.Named:
+				if x.Obj().Pkg() != nil && x.Obj().Pkg().Path() == r.StorePath && !exclude[x.Obj().Name()] {
+					if _, ok := x.Underlying().(*types.Struct); ok {
+						a, b := find(from), find(x.Obj().Name())
+						if a != b {
+							parent[a] = b
+						}
+					}
+				}
+				if ta := x.TypeArgs(); ta != nil {
+					for i := 0; i < ta.Len(); i++ {
+						refs(ta.At(i), from, depth+1)
+					}
+				}
+			}
+		}
+		for _, n := range structs {
+			if exclude[n.Obj().Name()] {
+				continue
+			}
+			st := n.Underlying().(*types.Struct)
+			for i := 0; i < st.NumFields(); i++ {
+				refs(st.Field(i).Type(), n.Obj().Name(), 0)
+			}
+		}
+		fams := map[string]*Family{}
+		for _, n := range structs {
+			if exclude[n.Obj().Name()] {
+				continue
+			}
+			root := find(n.Obj().Name())
+			f := fams[root]
+			if f == nil {
+				f = &Family{Types: map[string]bool{}}
+				fams[root] = f
+			}
+			f.Types[n.Obj().Name()] = true
+			switch {
+			case impl(n, r.IStore):
+				f.Store = n
+				f.Name = n.Obj().Name()
+			case impl(n, r.IRepo):
+				f.Repo = n
+			case impl(n, r.IBlobCreator):
+				f.Upload = n
+			}
+		}
+		var out []*Family
+		for _, f := range fams {
+			if f.Store != nil && f.Repo != nil && f.Upload != nil {
+				out = append(out, f)
+			}
+		}
+		return out
+	}
+	nStores := 0
+	for _, n := range structs {
+		if impl(n, r.IStore) {
+			nStores++
 		}
 	}
-	for _, f := range fams {
-		if f.Store != nil && f.Repo != nil && f.Upload != nil {
-			r.Families = append(r.Families, f)
+	exclude := map[string]bool{}
+	r.Families = components(exclude)
+	// a helper struct used by several stores (a shared hashing or bookkeeping record) would tie their families into
+	// one: such a type — not itself an implementation of the store API — is left out when that separates them
+	for round := 0; round < 4 && len(r.Families) < nStores; round++ {
+		improved := false
+		for _, n := range structs {
+			name := n.Obj().Name()
+			if exclude[name] || impl(n, r.IStore) || impl(n, r.IRepo) || impl(n, r.IBlobCreator) {
+				continue
+			}
+			exclude[name] = true
+			if fs := components(exclude); len(fs) > len(r.Families) {
+				r.Families = fs
+				improved = true
+				break
+			}
+			delete(exclude, name)
+		}
+		if !improved {
+			break
 		}
 	}
 	sort.Slice(r.Families, func(i, j int) bool { return r.Families[i].Name < r.Families[j].Name })
